@@ -514,6 +514,9 @@ static void do_server_op(const Op &op, Conn *ctx)
 		qb_ipcs_connection_t *it = qb_ipcs_connection_first_get(G.svc);
 		int guard = 0;
 		while (it && guard++ < 64) {
+			Conn *lc = conn_of(it);
+			if (lc && lc->destroyed)
+				VIOL(4, "list-returned-destroyed-connection", "qb_ipcs_connection_next_get", "the connection list handed out connection %d after (or while) its connection_destroyed callback ran", lc->id);
 			qb_ipcs_connection_t *nx = qb_ipcs_connection_next_get(G.svc, it);
 			qb_ipcs_connection_unref(it);
 			it = nx;
@@ -1368,7 +1371,14 @@ static void gen(const char *prop, RunSpec &spec)
 		else if (w == 4) {
 			if (k < 60) p.add(0, K_S_DISCONNECT, r.chance(1, 2) ? T_TICK : r.chance(1, 2) ? T_CREATED : T_MSG, conn, r.range(0, 20), 0, r.below(3));
 			else if (k < 70) p.add(0, K_S_REF, r.chance(1, 2) ? T_CREATED : T_MSG, conn, r.range(0, 4), r.range(1, 20));
-			else if (k < 78) p.add(0, K_S_ITERATE, r.chance(1, 2) ? T_TICK : T_CLOSED, -1, r.range(0, 20));
+			else if (k < 78) {
+				// walk the connection list / change the rate limit from a tick or from inside any callback
+				static const int TR[5] = { T_TICK, T_CLOSED, T_DESTROYED, T_MSG, T_CREATED };
+				int tr = TR[r.below(5)];
+				int64_t nth = tr == T_TICK ? r.range(0, 20) : tr == T_MSG ? r.range(0, 8) : tr == T_CLOSED ? r.range(0, 1) : 0;
+				if (r.chance(3, 4)) p.add(0, K_S_ITERATE, tr, -1, nth);
+				else p.add(0, K_S_RATE, tr, -1, nth, r.below(5));
+			}
 			else if (k < 86) p.add(0, K_S_CLOSED_RETRY, T_CREATED, conn, 0, r.range(1, 3));
 			else if (k < 92) p.add(0, K_S_DESTROY, T_TICK, -1, r.range(2, 40));
 			else p.add(0, K_S_STATS, T_TICK, -1, r.range(1, 30));
